@@ -105,6 +105,9 @@ def pred_hier(case, ctx):
         _close("evaluate T-Measure " + tag, sc["T-Measure " + tag], oc.fbeta(pre2, rec2, beta), case)
     _close("evaluate L-Precision", sc["L-Precision"], lpre, case)
     _close("evaluate L-Recall", sc["L-Recall"], lrec, case)
+    _close("evaluate L-Measure", sc["L-Measure"], oc.fbeta(lpre, lrec, beta), case)
+    if beta != 1.0 and lpre != lrec:
+        ctx.event("evaluate_L-Measure_with_beta!=1_and_P!=R")
     if nq_r == 0 or nq_p == 0:
         ctx.event("no_query_with_reference_triple(score 0 by convention)")
     if win is not None and win == fs:
